@@ -161,6 +161,9 @@ func (o *Obligation) scriptWith(extra Term, viaBlk int) string {
 			}
 		}
 	}
+	if len(o.Cites) > 0 {
+		bg = append(append([]string(nil), bg...), o.Cites...)
+	}
 	return fv.e.script(bg, goal, nil)
 }
 
